@@ -308,6 +308,8 @@ type harnessEvidence struct {
 	Queries     int            `json:"solver_queries"`
 	Unknowns    int            `json:"solver_unknowns"`
 	SolverSec   float64        `json:"solver_seconds"`
+	MaxQuerySec float64        `json:"slowest_query_seconds"`
+	Fallbacks   int            `json:"queries_retried_with_another_solver"`
 	Steps       int64          `json:"ssa_instructions_executed"`
 	MaxSteps    int64          `json:"max_instructions_on_one_path"`
 	Wall        float64        `json:"wall_s"`
@@ -328,7 +330,7 @@ func cmdCheck(args []string) int {
 	verbose := fs.Bool("v", false, "verbose")
 	maxSec := fs.Float64("max-seconds", 0, "per-harness wall clock limit (0 = tier default)")
 	cpuprof := fs.String("cpuprofile", "", "write a CPU profile of the exploration")
-	timeoutMs := fs.Int("timeout-ms", 0, "solver timeout per query in ms (0 = tier default: 60 s quick, 300 s thorough)")
+	timeoutMs := fs.Int("timeout-ms", 0, "solver timeout per query in ms (0 = tier default: 180 s quick, 300 s thorough)")
 	fs.Parse(args)
 	if v := os.Getenv("VERIF_TIER"); v != "" && *tier == "" {
 		*tier = v
@@ -442,7 +444,7 @@ func cmdCheck(args []string) int {
 		res := eng.Explore(h, opt)
 		he := harnessEvidence{Name: h.Name, Package: pkgOf[h.Name], Paths: res.Paths, Status: res.Status, Asserts: res.Asserts,
 			Reach: res.Reach, Branches: res.Stats.Branches, Forks: res.Stats.Forks, Queries: res.SolverQueries,
-			Unknowns: res.Stats.Unknowns, SolverSec: round3(res.SolverSeconds), Steps: res.Stats.Steps, MaxSteps: res.MaxPathSteps,
+			Unknowns: res.Stats.Unknowns, SolverSec: round3(res.SolverSeconds), MaxQuerySec: round3(res.MaxQuerySeconds), Fallbacks: res.Stats.Fallbacks, Steps: res.Stats.Steps, MaxSteps: res.MaxPathSteps,
 			Wall: round3(res.WallSeconds), Truncated: res.Truncated, SamplePCs: res.SamplePCs, Inconclusive: res.Inconclusive,
 			Candidates: len(res.Violations)}
 		hev = append(hev, he)
@@ -482,8 +484,8 @@ func cmdCheck(args []string) int {
 			}
 		}
 		if *verbose {
-			fmt.Fprintf(os.Stderr, "[%s] paths=%d status=%v asserts=%v queries=%d solver=%.1fs wall=%.1fs cands=%d\n", h.Name, res.Paths,
-				res.Status, res.Asserts, res.SolverQueries, res.SolverSeconds, res.WallSeconds, len(res.Violations))
+			fmt.Fprintf(os.Stderr, "[%s] paths=%d status=%v asserts=%v queries=%d solver=%.1fs slowest=%.1fs fallbacks=%d wall=%.1fs cands=%d\n", h.Name, res.Paths,
+				res.Status, res.Asserts, res.SolverQueries, res.SolverSeconds, res.MaxQuerySeconds, res.Stats.Fallbacks, res.WallSeconds, len(res.Violations))
 			for s, n := range res.Inconclusive {
 				fmt.Fprintf(os.Stderr, "   inconclusive x%d: %s\n", n, s)
 			}
